@@ -127,6 +127,16 @@ def programs(tier: str):
                     {"opt": [False, trs[2], "c"], "parent": 1, "place": pc},
                 ]
             }
+    # CONCURRENT siblings: 2-3 children spawned by the root within one step, each with a nested
+    # inline scope, every node yielding to the loop while its scope is open: a line logged by one
+    # sibling while another is suspended inside its nested scope still carries its own tags
+    for nkids in (2, 3):
+        for tr in (0, 1):
+            nodes_ = [{"opt": [False, 0, "root"], "parent": None, "place": "root"}]
+            for k_ in range(nkids):
+                nodes_.append({"opt": [bool(k_ % 2), tr if k_ == 0 else 0, f"job{k_}"], "parent": 0, "place": "spawn"})
+                nodes_.append({"opt": [False, 0, f"step{k_}"], "parent": len(nodes_) - 1, "place": "inline"})
+            yield {"nodes": nodes_, "yields": True, "lean": True}
     # LONG names (64, 65, 200, 1000 characters; with spaces / formatting characters) at the root, in
     # a nested scope, in both
     long_names = ["n" * 64, "n" * 65, "long name " * 20, "x" * 1000, "%s" * 40]
@@ -413,6 +423,10 @@ def execute(program, ch: Chooser) -> Result:  # noqa: C901, PLR0915
             if program.get("level_switch"):
                 _root.setLevel(logging.DEBUG)
             log_all(i, "pre")
+            if program.get("yields"):
+                # let sibling tasks run while this scope is open (they log meanwhile)
+                await asyncio.sleep(0)
+                log_all(i, "mid")
             for j, n in enumerate(nodes):
                 if n["parent"] == i:
                     if n["place"] == "inline" and n.get("ending") == "cancel":
@@ -424,6 +438,8 @@ def execute(program, ch: Chooser) -> Result:  # noqa: C901, PLR0915
                         await run_node(j)
                     else:
                         ctx.spawn(run_node, j)
+            if program.get("yields"):
+                await asyncio.sleep(0)
             log_all(i, "post")
             if nodes[i].get("ending") == "cancel":
                 asyncio.current_task().cancel()
